@@ -113,6 +113,26 @@ CLAIMS = {
                 "and norm-preservation of rotate follow from the verified transformation law for orthogonal R (theorem, not re-checked).",
         "technique": "algebraic abstract interpretation of the AST + normal-form identity checking",
     },
+    "C16": {
+        "level": "other",
+        "text": "CFG-dominance, handler and table rules over pydrex.io: schema validation dominates every header write and every parse; the "
+                "column-length check dominates opening the file; ValueError from cell parsing / strict zip is converted to the SCSV error and "
+                "the partial file removed; writer and reader share one cell parser, keys, defaults, type table and frame markers; the missing "
+                "marker is substituted only under equality with the typed fill; schema values reach the YAML header only validated or quoted. "
+                "Value-level losslessness of repr/csv/YAML typing (library semantics) and 1e4-row scale are NOT decided.",
+        "note": "Trusted: CFG construction incl. exception edges; yaml.safe_dump quoting. The unquoted/hand-quoted emission sites found by the "
+                "taint rule were repaired (fix: commit in /repo).",
+        "technique": "CFG dominance + exception-handler/raiser agreement + writer/reader table agreement + taint rule for YAML emission",
+    },
+    "C17": {
+        "level": "other",
+        "text": "save/load/from_file interpreted over a perfect key-value store model of the NPZ archive: keys written == keys read (incl. "
+                "postfix templates, several postfixes in one archive, reverse load order), meta order, cell-for-cell return of every snapshot, "
+                "n_grains recovery, load/from_file agreement, append mode and one member per key, uint8 range of all ordinals, no lossy "
+                "conversion on the path, ValueError before any I/O for corrupt state and non-NPZ names. Bit-exactness of np.save/np.load is NOT decided.",
+        "note": "Trusted: perfect-store model of numpy.savez/zipfile/numpy.load; NumPy stack/list semantics.",
+        "technique": "abstract interpretation with a store stub (writer/reader key agreement) + effect trace + AST conversion scan",
+    },
     "C18": {
         "level": "other",
         "text": "Static necessary conditions, decided on every run from the source: for all three flow factories and all six ordered axis "
